@@ -464,7 +464,7 @@ def correspondence(ctx):
 if __name__ == "__main__":
     common.run_check(
         "C07", module="Bermuda.Properties.C07", driver_targets=["drv_c07"],
-        correspondence=correspondence, level="translation_validation",
+        correspondence=correspondence, level="proof",
         rule="random triangles (1-4 slices differing in one attribute incl. only loss_details / None vs '' / limit "
              "int vs float vs None; Cell, CumulativeCell, IncrementalCell; regular, ragged, day-level; per field a "
              "random kind None/int/float/int64 array/float64 array/empty array/size-1 array; bool, int and float "
